@@ -32,26 +32,26 @@ type waitSpec struct {
 }
 
 var waitTable = map[string]waitSpec{
-	"udp/client.Conn.doInternal":             {"W1", "request wait"},
-	"tcp/client.Conn.doInternal":             {"W1", "request wait"},
-	"net/observation.Handler.NewObservation": {"W1", "wait for first notification"},
-	"net/client.Client.Ping":                 {"W1", "wait for pong"},
-	"udp/server.Server.DiscoveryRequest":     {"W1n", "collects responses until the request context ends or the server stops (no result channel)"},
+	"udp/client.Conn.doInternal":                                             {"W1", "request wait"},
+	"tcp/client.Conn.doInternal":                                             {"W1", "request wait"},
+	"net/observation.Handler.NewObservation":                                 {"W1", "wait for first notification"},
+	"net/client.Client.Ping":                                                 {"W1", "wait for pong"},
+	"udp/server.Server.DiscoveryRequest":                                     {"W1n", "collects responses until the request context ends or the server stops (no result channel)"},
 	"net/client/limitParallelRequests.LimitParallelRequests.acquireEndpoint": {"W1r", "queued behind the per-endpoint limit: woken by the holder's release, whose own operation is a W1 wait; exits on the request context"},
-	"udp/server.Server.conn":              {"W1c", "waits for Serve to publish the listener or the server to stop"},
-	"tcp.waitForCSMExchange":              {"W1t", "bounded by a timer"},
-	"udp/client.Conn.Process":             {"W2", "enqueue of a received datagram"},
-	"tcp/client.Conn.pushToReceivedMessageQueue": {"W2", "enqueue of a received frame"},
-	"net/client.ReceivedMessageReader.loop":      {"W4", "reader loop"},
-	"pkg/runner/periodic.New$1":                  {"W5", "periodic runner"},
-	"options/config.NewCommon$2$1":               {"W5s", "default periodic runner goroutine: sleeps between ticks"},
-	"tcp/server.Server.Serve":                    {"W6", "waits for connection goroutines after closing them"},
-	"dtls/server.Server.Serve":                   {"W6", "waits for connection goroutines after closing them"},
+	"udp/server.Server.conn":                                                 {"W1c", "waits for Serve to publish the listener or the server to stop"},
+	"tcp.waitForCSMExchange":                                                 {"W1t", "bounded by a timer"},
+	"udp/client.Conn.Process":                                                {"W2", "enqueue of a received datagram"},
+	"tcp/client.Conn.pushToReceivedMessageQueue":                             {"W2", "enqueue of a received frame"},
+	"net/client.ReceivedMessageReader.loop":                                  {"W4", "reader loop"},
+	"pkg/runner/periodic.New$1":                                              {"W5", "periodic runner"},
+	"options/config.NewCommon$2$1":                                           {"W5s", "default periodic runner goroutine: sleeps between ticks"},
+	"tcp/server.Server.Serve":                                                {"W6", "waits for connection goroutines after closing them"},
+	"dtls/server.Server.Serve":                                               {"W6", "waits for connection goroutines after closing them"},
 	// semaphore waits bounded by the request context
-	"net/blockwise.BlockWise.getCachedReceivedMessage":                   {"S", "reassembly guard, bounded by the message context"},
-	"net/client/limitParallelRequests.LimitParallelRequests.Do":          {"S", "total limit, bounded by the request context"},
-	"net/client/limitParallelRequests.LimitParallelRequests.DoObserve":   {"S", "total limit, bounded by the request context"},
-	"udp/client.Conn.acquireOutstandingInteraction":                      {"S", "NSTART, bounded by the request context"},
+	"net/blockwise.BlockWise.getCachedReceivedMessage":                 {"S", "reassembly guard, bounded by the message context"},
+	"net/client/limitParallelRequests.LimitParallelRequests.Do":        {"S", "total limit, bounded by the request context"},
+	"net/client/limitParallelRequests.LimitParallelRequests.DoObserve": {"S", "total limit, bounded by the request context"},
+	"udp/client.Conn.acquireOutstandingInteraction":                    {"S", "NSTART, bounded by the request context"},
 }
 
 func runC09(e *Env) {
@@ -578,8 +578,11 @@ func c09CallerContext(e *Env) {
 		calls := core.Calls(f, func(n string, _ ssa.CallInstruction) bool { return strings.HasSuffix(n, ".AcquireMessage") })
 		ok := len(calls) >= 1
 		for _, c := range calls {
-			if core.Resolve(core.Arg(c, 1)) != ssa.Value(ctx) {
-				ok = false
+			// (through a shared builder helper: the argument this operation passes to it)
+			for _, v := range core.ResolveIn(f, core.Arg(c, 1)) {
+				if v != ssa.Value(ctx) {
+					ok = false
+				}
 			}
 		}
 		e.R.Check(ok, rule, q+":request-on-caller-ctx", e.fpos(f), "the request message is acquired with the caller's context", "the request is built on a context other than the caller's: cancelling the caller's context would not end the operation")
